@@ -340,6 +340,33 @@ class ShimMath:
             return math.fabs(x)
         return abs(x)
 
+    @staticmethod
+    def isclose(a, b, *, rel_tol=1e-09, abs_tol=0.0):
+        """math.isclose by its documented formula: |a-b| <= max(rel_tol * max(|a|, |b|), abs_tol) (finite arguments)."""
+        if not isinstance(a, Sym) and not isinstance(b, Sym):
+            return math.isclose(a, b, rel_tol=rel_tol, abs_tol=abs_tol)
+        x, y = lift(a), lift(b)
+        ax, ay, d = z3.If(x >= 0, x, -x), z3.If(y >= 0, y, -y), z3.If(x >= y, x - y, y - x)
+        return SymBool(z3.Or(d <= rv(abs_tol), d <= rv(rel_tol) * z3.If(ax >= ay, ax, ay)))
+
+    @staticmethod
+    def hypot(*xs):
+        if not any(isinstance(x, Sym) for x in xs):
+            return math.hypot(*xs)
+        acc = 0
+        for x in xs:
+            acc = acc + x * x
+        return ENGINE.sqrt(acc)
+
+    @staticmethod
+    def dist(p, q):
+        if not any(isinstance(x, Sym) for x in list(p) + list(q)):
+            return math.dist(p, q)
+        acc = 0
+        for x, y in zip(p, q):
+            acc = acc + (x - y) * (x - y)
+        return ENGINE.sqrt(acc)
+
     def ceil(self, x):
         """Fork over the integer value (bounded: an unwinding assertion is raised beyond max_ceil)."""
         if not isinstance(x, Sym):
